@@ -505,7 +505,9 @@ class Ctx:
 
     symbolic = True
 
-    def __init__(self, timeout_ms=30000, max_paths=2_000_000, record_queries=0, seed=0):
+    def __init__(self, timeout_ms=30000, max_paths=2_000_000, record_queries=0, seed=0, prefix=()):
+        self.prefix = list(prefix)
+        self.pfx_used = 0
         self.names = []
         self.kinds = []
         self.z3vars = []
@@ -727,6 +729,8 @@ class Ctx:
             self.known[key] = (kn & signs) if val else (kn - signs)
             if e.forked:
                 self.path_forked = True
+                if e.n == -1:
+                    self.pfx_used += 1
             return val
         atom = self._atom(key, signs)
         natom = self._atom(key, _ALL - signs)
@@ -750,6 +754,19 @@ class Ctx:
         if sat_t and sat_f:
             self.forks += 1
             self.path_forked = True
+            if self.pfx_used < len(self.prefix):
+                # partitioned exploration: this sub-instance only follows the prescribed branch here
+                take = not self.prefix[self.pfx_used]
+                self.pfx_used += 1
+                self.log.append(_Entry("dec", (key, signs), take, forked=True, tried=True, level=self.level, n=-1,
+                                       constraint=(atom, natom)))
+                self.pos += 1
+                self.solver.push()
+                self.level += 1
+                self.solver.add(atom if take else natom)
+                self.model = m_t if take else m_f
+                self.known[key] = (kn & signs) if take else (kn - signs)
+                return take
             self.log.append(_Entry("dec", (key, signs), True, forked=True, tried=False, level=self.level,
                                    constraint=(atom, natom)))
             self.pos += 1
@@ -954,6 +971,7 @@ class Ctx:
         self.known = {}
         self.path_choices = []
         self.path_forked = False
+        self.pfx_used = 0
         self.varcount = 0
         self.sqrt_memo = {}
         self.exp_memo = {}
@@ -995,6 +1013,8 @@ class Ctx:
                 self._reset_path()
                 try:
                     fn(self)
+                    if self.pfx_used < len(self.prefix) and any(self.prefix[self.pfx_used:]):
+                        raise _Abort()  # a shorter path belongs to the all-zero-suffix partition only
                     self.paths += 1
                     if self.path_forked:
                         self.forked_paths += 1
